@@ -62,18 +62,20 @@ Theorem C05_stale_deadline_cuts :
 Proof. exact stale_deadline_cuts_proof. Qed.
 Print Assumptions C05_stale_deadline_cuts.
 
-(* No detection error is left in the reader when the relay starts. *)
-Definition C05_no_sticky_error_full : Prop := forall p s0, no_sticky_error_stmt p s0.
+(* The sniff window expiring (or the client ending its stream while the parser wants more) leaves no error
+   behind in the reader: for every sequence of parser verdicts, read sizes, stack below and script.
+   (Refuted before the repair 9ef4b71 of Sniffer.dataError; the former witness is the example below.) *)
+Theorem C05_sniff_leaves_no_timeout_error :
+  forall answers dl buf c s now buf' derr c' s' t spin,
+    sniff_rounds answers dl buf c s now = (buf', derr, c', s', t, spin) ->
+    derr <> Some ETimeout /\ derr <> Some EEof.
+Proof. exact sniff_rounds_no_timeout. Qed.
+Print Assumptions C05_sniff_leaves_no_timeout_error.
 
-Theorem C05_no_sticky_error_refuted : exists p s0, ~ no_sticky_error_stmt p s0.
-Proof. exact no_sticky_error_refuted_proof. Qed.
-Print Assumptions C05_no_sticky_error_refuted.
-
-Theorem C05_sticky_error_cuts :
+Example C05_nonvacuous_sniff_timeout :
   let o := connection w_psniff c05_half_close_ms false true w_client_tls w_server in
-  o_up o = w_tls_part /\ o_err o = true /\ o_end o = 1000.
-Proof. exact sticky_error_cuts_proof. Qed.
-Print Assumptions C05_sticky_error_cuts.
+  o_start o = 1000 /\ o_dl_at_start o = None /\ o_up o = w_tls_part ++ [9;9;9] /\ o_up_shut o = true /\ o_err o = false.
+Proof. exact sniff_timeout_harmless_example. Qed.
 
 (* Each end of stream is passed on as a clean write-shutdown exactly when the spec expects it. *)
 Definition C05_half_close_full : Prop :=
